@@ -68,6 +68,10 @@ def configs(tier):
     cs.append({"name": "lazy", "engine": "h5netcdf", "chunks": 1,
                "depth": 2 if tier == "quick" else 3,
                "max_states": 12 if tier == "quick" else 150})
+    # ... starting from a file that is already there and loaded lazily
+    cs.append({"name": "lazypre", "engine": "h5netcdf", "chunks": 1,
+               "preload": True, "depth": 2 if tier == "quick" else 3,
+               "max_states": 60 if tier == "quick" else 250})
     return cs
 
 
@@ -94,7 +98,10 @@ def alphabet(tier, expanded, extent_a):
             ev.append(["add_ds", r, 1, True])
             ev.append(["add_ds", r, 0, None])
             for pol in (None, True, False):
-                ev.append(["save_merge", r, (r + 1) % 2, pol])
+                # (not while a lazily loading harvester holds the file open:
+                # HDF5 refuses a second writer)
+                if not PRELOADED[0]:
+                    ev.append(["save_merge", r, (r + 1) % 2, pol])
         if extent_a:  # (nothing to expand in an empty harvester)
             ev.append(["expand"])
             # `...` = every value of that coordinate harvested so far; the
@@ -118,8 +125,9 @@ def alphabet(tier, expanded, extent_a):
     # a second, long-lived Harvester on the same data name (sessions
     # alternate, they do not overlap)
     for r in range(min(nreg, 3)):
-        ev.append(["hc2", r, 0, None, cs[0]])
-        ev.append(["hc2", r, 1, True, cs[0]])
+        if not PRELOADED[0]:
+            ev.append(["hc2", r, 0, None, cs[0]])
+            ev.append(["hc2", r, 1, True, cs[0]])
     return ev
 
 
@@ -490,9 +498,19 @@ class World:
             "changed %r" % (where, lost[:2], extra[:2], diff[:2])
 
 
+PRELOAD = [["hc", 7, 0, None, True, None], ["new_session"]]
+PRELOADED = [False]
+
+
 def build(cfg, hist, d):
     core.fresh_dir(os.path.basename(d))
     w = World(cfg, d)
+    if cfg.get("preload"):
+        # the file exists already (a whole grid, written by an earlier
+        # session); the harvester under test starts by loading it
+        for ev in PRELOAD:
+            w.apply(ev)
+            w.observe()
     for ev in hist:
         w.apply(ev)
         w.observe()
@@ -509,6 +527,10 @@ def expand(task):
         out["init_key"] = w.observe()[1]
     src = w.model.mem if w.model.mem is not None else (w.model.disk or {})
     extent_a = {dict(k[1])["a"] for k in src}
+    # (a lazily loading harvester keeps the file open and sees what is in it:
+    # no second writer - another Harvester object, save_merge_ds - while it
+    # lives; HDF5 refuses one anyway)
+    PRELOADED[0] = bool(cfg.get("chunks"))
     events = alphabet(tier, w.model.expanded, extent_a)
     for n, ev in enumerate(events):
         if n:
